@@ -50,6 +50,8 @@ def cases(draw, tier="quick"):
         st.tuples(st.just("T"), ci, st.floats(-0.4, 0.4).filter(lambda x: abs(x) > 0.02)),
         st.tuples(st.just("V"), st.sampled_from(["nlv", "nlv_raise", "liq", "notional", "weights", "context"])),
         st.tuples(st.just("V"), st.sampled_from(["nlv", "nlv_raise", "liq", "notional", "weights", "context"])),
+        # a position opened and fully closed again in legs of 0.1, 0.2 and -0.3 units (x scale): flat up to float residue
+        st.tuples(st.just("L"), ci, st.sampled_from([1.0, -1.0, 3.0, 7.0])),
         st.tuples(st.just("R"), st.lists(w, min_size=n, max_size=n), st.sampled_from(["weight", "weight", "nr-contracts"]),
                   st.sampled_from(["fresh", "fresh", "fresh", "fresh", "stale"])),
         st.tuples(st.just("R"), st.lists(w, min_size=n, max_size=n), st.sampled_from(["weight", "weight", "nr-contracts"]),
@@ -134,6 +136,17 @@ def run_broker(case):
             dq = lab.resolve_trade(i, "open", op[2] * min(1.0, 1000.0 / nlv))
             if dq:
                 lab.transact(i, dq)
+        elif kind == "L":
+            i = op[1]
+            if not (bid_ok(i) and ask_ok(i)) or liq_missing() or led.q[i] != 0 or not led.nlv() > 100:
+                continue
+            unit = op[2] * 10.0 / (lab.mid[i] * lab.mult[i])
+            for leg in (0.1 * unit, 0.2 * unit, -0.3 * unit):
+                lab.transact(i, leg)
+            flags.add("closed-in-legs")
+            if lab.code_q(i) != 0.0:
+                res.fail("%s: a position opened and closed in legs (0.1+0.2-0.3 units) is reported as %r, not flat" % (tag, lab.code_q(i)))
+                return finish(res, flags)
         elif kind == "V":
             missing = liq_missing()
             nlv_model = None if missing else led.nlv()
